@@ -299,20 +299,20 @@ def main():
     quick = ck.tier == "quick"
 
     cases = []
-    for _ in range(36 if quick else 250):
+    for _ in range(28 if quick else 250):
         for role in ("ode", "res"):
             cases.append(gen_lift_case(rng, role, True))
-    for _ in range(18 if quick else 120):
+    for _ in range(14 if quick else 120):
         for role in ("ode", "res"):
             cases.append(gen_lift_case(rng, role, False))
     for _ in range(9 if quick else 60):
         for role in ("ode", "res"):
             cases.append(gen_lift_case(rng, role, rng.random() < 0.7, via_max=True))
-    for _ in range(18 if quick else 120):
+    for _ in range(14 if quick else 120):
         cases.append(gen_fromode_case(rng))
-    for _ in range(15 if quick else 100):
+    for _ in range(12 if quick else 100):
         cases.append(gen_stack_case(rng))
-    for _ in range(5 if quick else 30):
+    for _ in range(4 if quick else 30):
         for kind in ("dense", "iso", "blockdiag"):
             for lin in ("ts0", "ts1"):
                 cases.append(gen_lin_case(rng, kind, lin))
